@@ -4,7 +4,7 @@ from common import capped, Failure, Outcome, Broken
 from gen import pick
 import stores
 import polcase
-from props.c08 import gen_policy, classify, UIDS
+from props.c08 import gen_policy, classify, UIDS, uids_for, tok
 from vakt.cache import EnfoldCache
 from vakt.storage.memory import MemoryStorage
 from vakt.guard import Guard, Inquiry
@@ -70,7 +70,7 @@ class Spy:
 
 def dump(st, pid_of):
     try:
-        return sorted('%s:%d' % (proto.enc_str(p.uid), pid_of(p)) for p in capped(st.retrieve_all(50)))
+        return sorted('%s:%d' % (tok(p.uid), pid_of(p)) for p in capped(st.retrieve_all(50)))
     except Exception as e:
         return ['dump-failed:%s' % type(e).__name__]
 
@@ -87,6 +87,7 @@ def run_history(kind, rng, nops, fail_at, out, script=None):
             pool.append(k)
         return keys[k]
 
+    UIDS = uids_for(kind)
     if script is None:
         script = {'init': [], 'populate_at_ctor': rng.random() < 0.5, 'step': pick(rng, [1, 2, 3, 1000]), 'ops': [],
                   'pre': [pick(rng, [('get', pick(rng, UIDS)), ('get', 'no-such-uid'), ('all', 2, 0), ('retr', 2)])
@@ -169,7 +170,7 @@ def run_history(kind, rng, nops, fail_at, out, script=None):
             if op[0] == 'add':
                 ok = not (op[2] and rejects)
                 will_fail = fail_at is not None and spy.mut_calls + 1 == fail_at
-                mops.append('fault' if will_fail else 'add %s %d %s' % (proto.enc_str(op[1].uid), pid_of(op[1]), 'T' if ok else 'F'))
+                mops.append('fault' if will_fail else 'add %s %d %s' % (tok(op[1].uid), pid_of(op[1]), 'T' if ok else 'F'))
                 human.append('add %s%s' % (op[1].uid, ' (malformed)' if op[2] else ''))
                 r = ec.add(op[1])
                 o = 'done'
@@ -179,7 +180,7 @@ def run_history(kind, rng, nops, fail_at, out, script=None):
                 ok = not (op[2] and rejects)
                 will_fail = fail_at is not None and spy.mut_calls + 1 == fail_at
                 # an injected failure hits before the backend looks the uid up: eager semantics for that op
-                mops.append('fault' if will_fail else 'upd %s %d %s' % (proto.enc_str(op[1].uid), pid_of(op[1]), 'T' if ok else 'F'))
+                mops.append('fault' if will_fail else 'upd %s %d %s' % (tok(op[1].uid), pid_of(op[1]), 'T' if ok else 'F'))
                 human.append('update %s%s' % (op[1].uid, ' (malformed)' if op[2] else ''))
                 r = ec.update(op[1])
                 o = 'done'
@@ -187,15 +188,15 @@ def run_history(kind, rng, nops, fail_at, out, script=None):
                     problems.append('update returned %r, not the backend\'s value' % (r,))
             elif op[0] == 'del':
                 will_fail = fail_at is not None and spy.mut_calls + 1 == fail_at
-                mops.append('fault' if will_fail else 'del %s' % proto.enc_str(op[1]))
-                human.append('delete %s' % op[1])
+                mops.append('fault' if will_fail else 'del %s' % tok(op[1]))
+                human.append('delete %s' % (op[1],))
                 r = ec.delete(op[1])
                 o = 'done'
                 if not (isinstance(r, tuple) and r[0] == 'backend-says'):
                     problems.append('delete returned %r, not the backend\'s value' % (r,))
             elif op[0] == 'get':
-                mops.append('get %s' % proto.enc_str(op[1]))
-                human.append('get %s' % op[1])
+                mops.append('get %s' % tok(op[1]))
+                human.append('get %s' % (op[1],))
                 p = ec.get(op[1])
                 o = 'pol -' if p is None else 'pol %d' % pid_of(p)
                 pb = backend.get(op[1])
@@ -205,11 +206,11 @@ def run_history(kind, rng, nops, fail_at, out, script=None):
             elif op[0] == 'all':
                 mops.append('all %d %d' % (op[1], op[2]))
                 human.append('get_all%r' % (op[1:],))
-                o = 'pols ' + ','.join('%s:%d' % (proto.enc_str(p.uid), pid_of(p)) for p in capped(ec.get_all(op[1], op[2])))
+                o = 'pols ' + ','.join('%s:%d' % (tok(p.uid), pid_of(p)) for p in capped(ec.get_all(op[1], op[2])))
             else:
                 mops.append('retr %d' % op[1])
                 human.append('retrieve_all(%d)' % op[1])
-                o = 'pols ' + ','.join('%s:%d' % (proto.enc_str(p.uid), pid_of(p)) for p in capped(ec.retrieve_all(op[1])))
+                o = 'pols ' + ','.join('%s:%d' % (tok(p.uid), pid_of(p)) for p in capped(ec.retrieve_all(op[1])))
         except Injected:
             o = 'rejected'
             injected = True
@@ -247,7 +248,7 @@ def run_history(kind, rng, nops, fail_at, out, script=None):
         if Guard(ec, ch).is_allowed(q) is not Guard(backend, ch).is_allowed(q):
             problems.append('decision through the enfolding cache differs from the decision over the backend')
     line = 'ENFOLD %s %s %d %s %d %s' % ('T' if sorted_ else 'F', 'T' if eager else 'F', len(script['init']),
-                                         ' '.join('%s %d' % (proto.enc_str(u), pid_of(p)) for u, p in script['init']),
+                                         ' '.join('%s %d' % (tok(u), pid_of(p)) for u, p in script['init']),
                                          len(mops), ' '.join(mops))
     line = ' '.join(line.split())
     return line, outs, {'backend': kind, 'fail_at_mutation': fail_at, 'history': human}, problems, script
